@@ -990,7 +990,8 @@ class Sandbox:
         if isinstance(inputs, (list, tuple)):
             # A copy first: the caller may hand back the live queue (set_input(get_input()))
             inputs = list(inputs)
-        if inputs is None:
+        if inputs is None or not isinstance(self.inputs, list):
+            # (a function is installed as the source of inputs after allow_real_io())
             self.inputs = []
         if clear:
             self.inputs.clear()
